@@ -14,6 +14,8 @@ from inferno.core.infrastructure import Module, RecordTensor, ShapedTensor
 import c01_impl
 
 KEEP = []  # attributes only weak-reference their owner
+# c01_impl.apply takes the caller-side aliasing policy as a third argument in newer versions (none is used here)
+_WHO = c01_impl.Caller({}) if hasattr(c01_impl, "Caller") else None
 
 
 def flat2(t):
@@ -126,7 +128,7 @@ def run_record(case):
         try:
             k = op[0]
             if k == "ring":
-                out = c01_impl.apply(rt, op[1])
+                out = c01_impl.apply(rt, op[1], _WHO) if _WHO is not None else c01_impl.apply(rt, op[1])
             elif k == "dt":
                 rt.dt = op[1]
             elif k == "dur":
